@@ -164,6 +164,10 @@ class HookError(Exception):
     pass
 
 
+class DisconnectBoom(Exception):
+    """what a user's on_disconnect hook raises in the raising-hook workloads"""
+
+
 class Svc(rpyc.Service):
     def __init__(self, h, side):
         self.h = h
@@ -171,6 +175,8 @@ class Svc(rpyc.Service):
 
     def on_disconnect(self, conn):
         self.h.hooks[self.side] += 1
+        if self.h.hook_raises.get(self.side):
+            raise DisconnectBoom("on_disconnect")
 
     def exposed_echo(self, x):
         self.h.finish(self.side, ref=type(x) is not int)
@@ -232,6 +238,10 @@ class Harness(object):
         self.snap = {}
         self.fired = None
         self.hang = False
+        w = WORKLOADS[workload]
+        self.handshake_ok = {"A": False, "B": False}
+        self.hook_raises = {"A": bool(w.get("hook_raises_a")), "B": bool(w.get("hook_raises_b"))}
+        self.classic = bool(w.get("classic"))
 
     # ------------------------------------------------------------------ logging helpers used by services / workloads
     def finish(self, side, ref):
@@ -257,8 +267,8 @@ class Harness(object):
             return "eof"
         if type(ex).__name__ in ("AsyncResultTimeout", "TimeoutError"):
             return "timeout"
-        if isinstance(ex, HookError):
-            return "closeexc"
+        if isinstance(ex, (HookError, DisconnectBoom)):
+            return "closeexc"        # what close() raised in place of EOFError: a user hook's own exception
         if hasattr(ex, "_remote_tb"):
             return "v%d" % VAL_EXC
         return "other:" + type(ex).__name__
@@ -293,6 +303,8 @@ class Harness(object):
     def api_ret(self, side, what):
         """control is back in the application on `side`: what an observer of the API sees now"""
         conn = self.conn[side]
+        if conn is None:
+            return
         self.rec.log(t="api_ret", side=side, what=what, closed=bool(conn.closed), hooks=self.hooks[side])
 
     def delivered(self, label, ar):
@@ -421,16 +433,39 @@ class Harness(object):
                     if mode:
                         cfg[side]["before_closed"] = self.before_closed(side, mode)
                         cfg[side]["close_catchall"] = mode == "raise_catchall"
-                self.ca = ca = sa._connect(Channel(stra, False), cfg["A"])
-                self.cb = cb = sb._connect(Channel(strb, False), cfg["B"])
-                self.conn = {"A": ca, "B": cb}
+                if self.classic:
+                    # both sides are classic (MasterService + SlaveService): on_connect() fetches the peer's root, so
+                    # the handshake itself is a request of each side and part of what the faults hit
+                    sa, sb = self.classic_service("A"), self.classic_service("B")
+                    self.svc = {"A": sa, "B": sb}
+                    self.conn = {"A": None, "B": None}
 
-                def b_main():
-                    try:
-                        cb.serve_all()
-                    finally:
-                        rec.log(t="serve_all_exit", side="B")
-                net.spawn("B", b_main)
+                    def b_main():
+                        served = False
+                        try:
+                            self.conn["B"] = self.handshake("B", sb, strb, cfg["B"])
+                            if self.handshake_ok["B"]:
+                                served = True
+                                rec.log(t="serve_all_enter", side="B")
+                                self.conn["B"].serve_all()
+                        finally:
+                            if served:
+                                rec.log(t="serve_all_exit", side="B")
+                    net.spawn("B", b_main)
+                    self.conn["A"] = self.handshake("A", sa, stra, cfg["A"])
+                    self.ca, self.cb = self.conn["A"], None
+                else:
+                    self.ca = ca = sa._connect(Channel(stra, False), cfg["A"])
+                    self.cb = cb = sb._connect(Channel(strb, False), cfg["B"])
+                    self.conn = {"A": ca, "B": cb}
+
+                    def b_main():
+                        try:
+                            rec.log(t="serve_all_enter", side="B")
+                            cb.serve_all()
+                        finally:
+                            rec.log(t="serve_all_exit", side="B")
+                    net.spawn("B", b_main)
                 try:
                     w["run"](self)
                 except Deadlock:
@@ -457,6 +492,34 @@ class Harness(object):
                 gc.enable()
         return self
 
+    def classic_service(self, side):
+        h = self
+
+        class CountingClassic(rpyc.ClassicService):
+            def on_disconnect(self, conn):
+                h.hooks[side] += 1
+                super(CountingClassic, self).on_disconnect(conn)
+        return CountingClassic()
+
+    def handshake(self, side, svc, stream, cfg):
+        """svc._connect(): on_connect() of a classic service performs the GETROOT round trip; its outcome is request
+        `<side>0` (the first request of that side)"""
+        label = side.lower() + "0"
+        self.rec.log(t="handshake_begin", side=side)
+        try:
+            conn = svc._connect(Channel(stream, False), cfg)
+            self.handshake_ok[side] = True
+        except BaseException as ex:  # noqa
+            # on_connect() makes several requests (GETROOT, then attribute fetches on the root); the one that failed is the
+            # last one this side wrote
+            self.outcomes[label] = [self.classify(ex)]
+            conn = getattr(svc, "_conn", None)
+        self.rec.log(t="handshake_end", side=side)
+        if conn is not None:
+            self.conn[side] = conn
+            self.api_ret(side, "request")
+        return conn
+
     def settle(self):
         """let side B run until it blocks or ends"""
         net = self.net
@@ -478,6 +541,8 @@ class Harness(object):
         return "B" in self.net.finished
 
     def afterwards(self):
+        if self.conn["A"] is None:
+            return
         # every result that is still pending is waited for
         for label in list(self.asyncs):
             self.wait(label)
@@ -491,7 +556,7 @@ class Harness(object):
         self.close("A")
         self.close("A")
         self.settle()
-        if self.b_finished():
+        if self.b_finished() and self.conn["B"] is not None:
             # side B's thread has ended: its API can be used from here
             self.raw_request("B", consts.HANDLE_PING, 83)
             self.close("B")
@@ -506,7 +571,7 @@ class Harness(object):
                 tables = (len(conn._local_objects._dict), len(conn._proxy_cache), len(conn._request_callbacks))
             except AttributeError:
                 tables = None
-            snap[side] = dict(closed=bool(conn.closed), hooks=self.hooks[side], tables=tables,
+            snap[side] = dict(closed=bool(conn is not None and conn.closed), hooks=self.hooks[side], tables=tables,
                               close_results=list(self.close_results[side]),
                               outcomes=dict((k, list(v)) for k, v in self.outcomes.items()))
         self.snap[n] = snap
@@ -668,6 +733,19 @@ def w_both_tcp(h):
     h.close("A")                                                    # root fetch inside close() serves that HANDLE_CLOSE
 
 
+def w_classic(h):
+    ca = h.conn["A"]
+    if ca is None or not h.handshake_ok["A"]:
+        return                                                      # the handshake did not complete
+    try:
+        ca.eval("1+1")                                              # (requests rpyc issues itself on the classic proxies)
+    except BaseException as ex:  # noqa
+        if isinstance(ex, Deadlock):
+            h.hang = True
+    h.raw_request("A", consts.HANDLE_PING, 5)
+    h.close("A")
+
+
 WORKLOADS = {
     "sync": dict(run=w_sync),
     "async": dict(run=w_async),
@@ -686,6 +764,14 @@ WORKLOADS = {
     "before_closed_raises_catchall": dict(run=w_before_closed, before_closed_a="raise_catchall"),
     "before_closed_fetches_root": dict(run=w_before_closed_uncached, before_closed_a="return"),
     "both_at_once_tcp": dict(run=w_both_tcp, before_closed_a="return", tcp_like=True),
+    # a user service whose on_disconnect hook raises: closed, hook once, tables empty, later close a no-op all the same
+    "hook_raises_sync": dict(run=w_sync, hook_raises_a=True),
+    "hook_raises_pending": dict(run=w_pending, hook_raises_a=True, hook_raises_b=True),
+    "hook_raises_nested": dict(run=w_nested, hook_raises_a=True, hook_raises_b=True),
+    "hook_raises_close_in_callback": dict(run=w_close_in_callback_ref, hook_raises_a=True),
+    "hook_raises_peer_closes": dict(run=w_peer_closes, hook_raises_b=True),
+    # classic sides (MasterService + SlaveService): the handshake of on_connect() is itself exposed to every fault
+    "classic_handshake": dict(run=w_classic, classic=True),
 }
 
 
@@ -718,6 +804,21 @@ def abstract(h, side):
     for e in ev:
         if e["t"] == "write" and e.get("label") is not None and e["msg"] == consts.MSG_REQUEST:
             written[e["label"]] = e
+    if h.classic:
+        # a failed handshake: the request that failed is the last one this side wrote inside on_connect()
+        inside = False
+        for e in ev:
+            if e.get("side") != side:
+                continue
+            if e["t"] == "handshake_begin":
+                inside = True
+            elif e["t"] == "handshake_end":
+                inside = False
+            elif inside and e["t"] == "write" and e["msg"] == consts.MSG_REQUEST \
+                    and e.get("handler") not in (consts.HANDLE_DEL, consts.HANDLE_CLOSE):
+                ids[side.lower() + "0"] = e["seq"]
+        if side.lower() + "0" not in h.outcomes:
+            ids.pop(side.lower() + "0", None)         # the handshake completed: nothing to compare
 
     def flush_reply():
         # a handler finished and no response was written before something else happened on this side:
@@ -877,7 +978,7 @@ def parse_model(line):
                 blocked=lst(m.group(10)), out=lst(m.group(11)), raised=lst(m.group(12)))
 
 
-RAISED_NAME = {"HookError": "user", "AttributeError": "attr"}
+RAISED_NAME = {"HookError": "user", "AttributeError": "attr", "DisconnectBoom": "hook"}
 
 
 def impl_view(h, side, n, ids):
@@ -927,9 +1028,12 @@ def fault_points(workload, cuts, rng=None):
     # serve_all() of side B polling at its base level (no request in progress there): poll raises OSError
     depth = 0
     pend = None
+    serving = False
     for e in h.rec.events:
         if e.get("side") != "B":
             continue
+        if e["t"] == "serve_all_enter":
+            serving = True
         if e["t"] == "recv":
             pend = e
         elif e["t"] == "recvbody":
@@ -938,7 +1042,7 @@ def fault_points(workload, cuts, rng=None):
             pend = None
         elif e["t"] == "write" and e["msg"] != consts.MSG_REQUEST:
             depth -= 1
-        elif e["t"] == "poll" and depth == 0 and not e["own_closed"]:
+        elif e["t"] == "poll" and depth == 0 and serving and not e["own_closed"]:
             faults.append(dict(k=e["call"], how="oserr"))
     if cuts:
         for e in h.rec.events:
@@ -962,9 +1066,10 @@ def run_case(workload, fault):
     lines, meta = [], []
     for side in "AB":
         toks, snap1, ids = abstract(h, side)
-        lines.append("life run " + " ".join(toks[:snap1]))
+        op = "life runhook " if h.hook_raises[side] else "life run "
+        lines.append(op + " ".join(toks[:snap1]))
         meta.append((side, 1, ids))
-        lines.append("life run " + " ".join(toks))
+        lines.append(op + " ".join(toks))
         meta.append((side, 2, ids))
     return h, lines, meta
 
@@ -1746,6 +1851,7 @@ def oracle(h):
                 boxed_late = any(e["t"] == "api_req" and e["side"] == side and e["ref"] and e["own_closed"] for e in ev) \
                     or h.workload == "close_in_callback_ref"
                 sig = "C11:box-after-close-holds-objects" if (s["tables"][0] and boxed_late and sum(s["tables"][1:]) == 0) \
+                    else "C11:raising-disconnect-hook-skips-cleanup" if h.hook_raises.get(side) \
                     else "C11:tables-not-cleared"
                 return ("side %s is closed but holds (local objects, proxies, callbacks) = %r" % (side, s["tables"]), sig)
         # the last close() of the after-phase is a second close: a no-op
